@@ -720,17 +720,40 @@ func init() {
 					if l, want := planar.Length(mls), wl; !relClose(l, want, 1e-12, 0) {
 						c.Fail("", "multi line string length is not the sum of the segment lengths", map[string]interface{}{"lines": sv(mls), "got": l, "want": want})
 					}
-					// a collection of points: count weighted
+					// a collection of points: count weighted. The points are dealt out in runs of 1..4; a run is a point, a multi
+					// point, or a nested collection (one or two levels) of points and multi points: it weighs as many points as it holds
 					var pc orb.Collection
-					for i, p := range mpt {
+					for i := 0; i < len(mpt); {
+						k := 1
+						if i > 0 && r.P(1, 2) {
+							k = r.Range(1, 4)
+							if k > len(mpt)-i {
+								k = len(mpt) - i
+							}
+						}
+						run := append(orb.MultiPoint(nil), mpt[i:i+k]...)
 						switch {
 						case i > 0 && r.P(1, 3):
-							pc = append(pc, orb.Collection{p}) // nested collection of points (weighted by its number of points)
-						case i > 0 && r.P(1, 3):
-							pc = append(pc, orb.MultiPoint{p})
+							inner := orb.Collection{}
+							switch r.Range(0, 2) {
+							case 0:
+								inner = append(inner, run) // one multi point of k points
+							case 1:
+								inner = append(inner, run[0])
+								if k > 1 {
+									inner = append(inner, run[1:])
+								}
+							default:
+								inner = append(inner, orb.Collection{run}) // two levels down
+							}
+							pc = append(pc, inner)
+						case i > 0 && (k > 1 || r.P(1, 3)):
+							pc = append(pc, run)
 						default:
-							pc = append(pc, p)
+							k = 1
+							pc = append(pc, mpt[i])
 						}
+						i += k
 					}
 					cc, _ := planar.CentroidArea(pc)
 					c.Eval()
